@@ -196,6 +196,25 @@ def row(case):
             args.append(T.RegexMatch(rid, m))
         else:
             args.append(value_for(what, rnd))
+    # two values of one kind (ranges): half of the time the second is a NEIGHBOUR of the first - same day, same hour, minute
+    # absent / equal / one apart, day one apart ... - where ordering guards are decided
+    vals = [i for i, (kind, what) in enumerate(tab) if kind != "R"]
+    if len(vals) == 2 and tab[vals[0]][1] == tab[vals[1]][1] and isinstance(args[vals[0]], T.Time) and rnd.random() < 0.5:
+        a = args[vals[0]]
+        b = T.Time(year=a.year, month=a.month, day=a.day, hour=a.hour, minute=a.minute, DOW=a.DOW, POD=a.POD)
+        for _ in range(rnd.choice((0, 1, 2))):
+            f = rnd.choice(["minute", "hour", "day"])
+            v = getattr(b, f)
+            if f == "minute" and b.hour is not None:
+                b.minute = rnd.choice([None, 0, v, (v or 0) + 1 if (v or 0) < 59 else 58, max((v or 0) - 1, 0)])
+            elif f == "hour" and v is not None:
+                b.hour = min(23, max(0, v + rnd.choice((-1, 1, 12, -12))))
+            elif f == "day" and v is not None:
+                b.day = min(28, max(1, v + rnd.choice((-1, 1))))
+        if rnd.random() < 0.5:
+            args[vals[0]], args[vals[1]] = b, a
+        else:
+            args[vals[1]] = b
     r = common.call_rule(name, ts, args)
     return [r] if qa.row_in_model(r) else []
 
